@@ -445,12 +445,30 @@ func c17FanOut(r *Run) {
 		r.HarnessErr = err.Error()
 		return
 	}
-	for _, tp := range topics {
-		fo.AddSubscription(tp)
-		if t.Chance(1, 3) {
-			fo.AddSubscription(tp) // idempotent
-		}
+	// (library calls that could block run in a goroutine of their own: a hang then shows at the end instead of silently
+	// ending the run)
+	added := false
+	again := make([]bool, len(topics))
+	for i := range topics {
+		again[i] = t.Chance(1, 3)
 	}
+	addDone := make(chan struct{})
+	go func() {
+		for i, tp := range topics {
+			fo.AddSubscription(tp)
+			if again[i] {
+				fo.AddSubscription(tp) // idempotent
+			}
+		}
+		added = true
+		close(addDone)
+	}()
+	r.Sim.AtEnd(func() {
+		if !added {
+			r.Fail("C17.R1", "FanOut.AddSubscription never returned", "topics %v", topics)
+		}
+	})
+	<-addDone
 	type consumer struct {
 		topic string
 		got   []*message.Message
